@@ -804,7 +804,6 @@ func checkLabelChange(c *Ctx) {
 	c.Check(okRem, "R10.5", "LabelChangeOperation.Apply:removals", w.FnPos(lc), "labels equal to a removed one are taken out", "removed labels are not matched against the label set")
 }
 
-
 // checkEditCommentNoOpOnlyWithoutTarget (R10.6): an edit-comment operation is a no-op only when its target is
 // not a comment of this bug. Every branch that decides whether the comment is replaced (one successor can
 // still reach CommentTimelineItem.Append, the other cannot) is a test of the target found: nil, or its type.
@@ -886,6 +885,41 @@ func checkEditCommentNoOpOnlyWithoutTarget(c *Ctx) {
 					}
 					if o.Kind == "call" && strings.HasSuffix(o.Name, "SearchTimelineItem") {
 						okCond = true
+					}
+					// the search extracted into a same-package helper that answers an element of the timeline (or nil)
+					if o.Kind == "call" {
+						if cv, isCall := o.Val.(*ssa.Call); isCall {
+							if h := cv.Common().StaticCallee(); h != nil && len(h.Blocks) > 0 && fnPkgPath(h) == fnPkgPath(fn) {
+								all := true
+								any := false
+								for _, r := range Returns(h) {
+									if len(r.Results) == 0 {
+										continue
+									}
+									rv := ReturnResult(r, 0)
+									if isNilConst(rv) {
+										continue
+									}
+									if mi, isMI := rv.(*ssa.MakeInterface); isMI && isNilConst(mi.X) {
+										continue
+									}
+									fromTimeline := false
+									for _, o2 := range origins(rv) {
+										if o2.Kind == "field" && o2.Name == "Timeline" {
+											fromTimeline = true
+										}
+									}
+									if fromTimeline {
+										any = true
+									} else {
+										all = false
+									}
+								}
+								if all && any {
+									okCond = true
+								}
+							}
+						}
 					}
 				}
 			}
